@@ -6,7 +6,7 @@ CLAIMED = {
  # id: (technique, level category, level text, design ref, level note)
  "C01": ("deterministic session simulation (seeded swarm of scenarios) with benign fault injection: reorder, duplicate, short I/O, EINTR, crash-restart, re-serialization, seeded rayon schedules; liveness oracle",
          "exploration",
-         "Seeded search over simulated authority/prover/verifier sessions of every trait scheme (19 instantiations) with benign faults; every verification of a true claim must be accepted and no party may abort. Sampling over the configuration space, not enumeration.",
+         "Seeded search over simulated authority/prover/verifier sessions of every scheme (19 trait-scheme instantiations, raw KZG10 and MultilinearPC through four adapter instantiations, streaming KZG through its own driver) with benign faults; every verification of a true claim must be accepted and no party may abort. Sampling over the configuration space, not enumeration.",
          "3.1", "ground truth from the harness's independent evaluators; ark-* dependencies trusted; rayon replaced by the deterministic shim"),
  "C02": ("deterministic session simulation with statement-corruption faults on in-flight claims (value+delta at every position, cancelling deltas in a point group, moved point, commitment swapped for commit(q)); safety oracle against the reference model",
          "exploration",
@@ -107,7 +107,7 @@ def main():
         ],
         "checks": checks,
         "not_applicable": na,
-        "notes": "Technique family: deterministic simulation with fault injection. See DESIGN.md; known_findings.json lists genuine defects (fixed / known).",
+        "notes": "Technique family: deterministic simulation with fault injection. See DESIGN.md; known_findings.json lists genuine defects (status fixed / known). Unguarded repairs in /repo (commit messages start with fix:): c8ccc8f 2183fb2 266db9f 7d54976 f26a00c e1833a0 59ee085 f3b67ba ea9ea30 25f917a b212496. Guarded hook: d6804a8 (--cfg pc_verif). seeded/ holds 72 independently written property-breaking changes with the checks that catch them.",
     }
     json.dump(m, open("/verif/MANIFEST.json","w"), indent=1)
     print("MANIFEST.json:", len(checks), "checks,", len(na), "not claimed")
